@@ -597,3 +597,57 @@ U_LOAD = VUnit("c07_load", ["C07", "C01"], "load: which variable a name denotes 
 U_LOAD.assumes = ["Stack::find_name / find_name_in_function are abstract callees here (C07.stack.find_name in unit c07_stack covers the former)",
                   "gc cell semantics assumed: a handle denotes a cell whose current content every handle sees"]
 UNITS.append(U_LOAD)
+
+
+# =====================================================================================================================
+# C11: `export name` -- the export table shares the module variable's cell
+EXPORT_SPEC = r"""
+#[verifier::external_body] pub struct Exports { x: usize }
+pub uninterp spec fn exports_view(e: &Exports) -> Map<Seq<char>, Handle>;
+// Ctx::register_export -> MScriptFile::add_export -> VariableMapping::update_once: a name is exported at most once
+#[verifier::external_body]
+pub fn register_export(e: &mut Exports, name: VString, pair: Handle) -> (r: Result<(), VErr>)
+    ensures r is Ok <==> !exports_view(old(e)).contains_key(text_of(&name)),
+            r is Ok ==> exports_view(final(e)) == exports_view(old(e)).insert(text_of(&name), pair),
+            r is Err ==> exports_view(final(e)) == exports_view(old(e))
+{ unimplemented!() }
+pub struct VariableFlags(pub u8);
+pub const READ_ONLY: u8 = 1;
+// PrimitiveFlagsPair::new: a NEW cell (nothing is known about its identity)
+#[verifier::external_body] pub fn new_pair(v: Primitive, f: VariableFlags) -> (r: Handle) { unimplemented!() }
+"""
+
+
+def build_export(repo):
+    src = Source(repo)
+    log = []
+    b = handler(src, log, "export_name", [
+        Rule("R3", ". with_context ( $$c ) ?", "?", why="context text dropped"),
+        Rule("R10", "ctx . register_export ( $$a ) ?", "register_export ( exports , $$a ) ?", why="the executing file's export table as explicit state (R10)"),
+        Rule("R1", "pair . primitive ( ) . clone ( )", "pair . verif_value ( )", why="content of the variable's cell"),
+        Rule("R6", "PrimitiveFlagsPair :: new ( $$a )", "new_pair ( $$a )", why="fresh cell"),
+    ])
+    gen = header(log, f"{INSTR}: export_name") + prelude("ctx.rs") + CTX_STRUCT + "impl Ctx {\n" + CTX_EXTRA + "}\n" + LOAD_SPEC + EXPORT_SPEC + f"""
+//@ OBL C11.export.shares-cell
+// `export x`: importers and the module itself share ONE variable -- the export table gets a handle of the module variable's own cell
+// (a later `modify` / assignment inside the module is what every importer reads), once per name
+pub fn export_name(ctx: &mut Ctx, args: &Vec<VString>, exports: &mut Exports) -> (r: Result<(), VErr>)
+    ensures
+        r is Ok ==> args@.len() >= 1 && fn_lookup(&old(ctx).frames, text_of(&args@[0])) is Some && !exports_view(old(exports)).contains_key(text_of(&args@[0]))
+            && exports_view(final(exports)).dom() == exports_view(old(exports)).dom().insert(text_of(&args@[0]))
+            && cell_id(&exports_view(final(exports))[text_of(&args@[0])]) == cell_id(&fn_lookup(&old(ctx).frames, text_of(&args@[0]))->Some_0)
+            && (forall|k: Seq<char>| exports_view(old(exports)).contains_key(k) ==> exports_view(final(exports))[k] == exports_view(old(exports))[k]),
+        r is Err ==> exports_view(final(exports)) == exports_view(old(exports)),
+        *final(ctx) == *old(ctx),
+{{
+{render(b, 1)}
+}}
+}} // verus!
+fn main() {{}}
+"""
+    return gen, [Obl("C11.export.shares-cell", ["C11"], fn="export_name", desc="export_name: the export table binds the name to the module variable's own cell (shared state), at most once per name")], log
+
+
+U_EXPORT = VUnit("c11_export", ["C11"], "export: the export table shares the module variable's cell", build_export)
+U_EXPORT.assumes = ["register_export (MScriptFile::add_export / update_once) and the frame lookup are abstract callees; gc cell semantics assumed"]
+UNITS.append(U_EXPORT)
